@@ -296,3 +296,50 @@ func (m *MemFS) Move(ctx context.Context, name, dest string, options *webdav.Mov
 }
 
 var _ webdav.FileSystem = (*MemFS)(nil)
+
+// HookFS wraps a FileSystem so that every method entry is a hook point (C18 scheduling point).
+type HookFS struct {
+	Inner webdav.FileSystem
+	Hook  func(ctx context.Context, method, path string)
+}
+
+func (h *HookFS) hook(ctx context.Context, m, p string) {
+	if h.Hook != nil {
+		h.Hook(ctx, m, p)
+	}
+}
+
+func (h *HookFS) Open(ctx context.Context, name string) (io.ReadCloser, error) {
+	h.hook(ctx, "Open", name)
+	return h.Inner.Open(ctx, name)
+}
+func (h *HookFS) Stat(ctx context.Context, name string) (*webdav.FileInfo, error) {
+	h.hook(ctx, "Stat", name)
+	return h.Inner.Stat(ctx, name)
+}
+func (h *HookFS) ReadDir(ctx context.Context, name string, recursive bool) ([]webdav.FileInfo, error) {
+	h.hook(ctx, "ReadDir", name)
+	return h.Inner.ReadDir(ctx, name, recursive)
+}
+func (h *HookFS) Create(ctx context.Context, name string, body io.ReadCloser, opts *webdav.CreateOptions) (*webdav.FileInfo, bool, error) {
+	h.hook(ctx, "Create", name)
+	return h.Inner.Create(ctx, name, body, opts)
+}
+func (h *HookFS) RemoveAll(ctx context.Context, name string, opts *webdav.RemoveAllOptions) error {
+	h.hook(ctx, "RemoveAll", name)
+	return h.Inner.RemoveAll(ctx, name, opts)
+}
+func (h *HookFS) Mkdir(ctx context.Context, name string) error {
+	h.hook(ctx, "Mkdir", name)
+	return h.Inner.Mkdir(ctx, name)
+}
+func (h *HookFS) Copy(ctx context.Context, name, dest string, options *webdav.CopyOptions) (bool, error) {
+	h.hook(ctx, "Copy", name)
+	return h.Inner.Copy(ctx, name, dest, options)
+}
+func (h *HookFS) Move(ctx context.Context, name, dest string, options *webdav.MoveOptions) (bool, error) {
+	h.hook(ctx, "Move", name)
+	return h.Inner.Move(ctx, name, dest, options)
+}
+
+var _ webdav.FileSystem = (*HookFS)(nil)
